@@ -319,6 +319,20 @@ class IRGenerator:
 
         return self.api
 
+    def _imports_namespace(self, env, namespace_name, seen=None):
+        """Whether the namespace of env imports namespace_name, directly or
+        through the namespaces it imports."""
+        seen = seen if seen is not None else set()
+        for imported_env in env.values():
+            if not isinstance(imported_env, Environment) or \
+                    id(imported_env) in seen:
+                continue
+            seen.add(id(imported_env))
+            if imported_env.namespace_name == namespace_name or \
+                    self._imports_namespace(imported_env, namespace_name, seen):
+                return True
+        return False
+
     def _extract_namespace_ast_node(self, desc):
         """
         Checks that the namespace is declared first in the spec, and that only
@@ -459,9 +473,11 @@ class IRGenerator:
                             item.lineno, item.path)
                     env = self._get_or_create_env(namespace.name)
                     imported_env = self._get_or_create_env(item.target)
-                    if namespace.name in imported_env:
-                        # Block circular imports. The Python backend can't
-                        # easily generate code for circular references.
+                    if (namespace.name in imported_env or
+                            self._imports_namespace(imported_env, namespace.name)):
+                        # Block circular imports, direct or through other
+                        # namespaces. The Python backend can't easily
+                        # generate code for circular references.
                         raise InvalidSpec(
                             'Circular import of namespaces %s and %s '
                             'detected.' %
